@@ -634,6 +634,22 @@ def _check_e8m0_mxint_bfloat_scale(ctx, r):
         r.fail(s.key, idx[0] if idx else 'int2bitstore', 'e8m0 codes are 8-bit unsigned', loc=s.loc())
     else:
         r.ok(idx[0])
+    # "no rounding will be done": the code must come from an exact test.  A logarithm rounds (log2 of a float a few ulps from
+    # 2**k is exactly k), so it decides membership only together with an exact comparison of f against the power / the table.
+    inexact = [n for n in own_walk(s.node) if isinstance(n, ast.Call) and ast.unparse(n.func) in
+               ('math.log2', 'math.log', 'math.log10', 'math.sqrt', 'math.pow', 'math.exp', 'round', 'math.floor', 'math.ceil')]
+    exact = [n for n in own_walk(s.node) if (isinstance(n, ast.Call) and isinstance(n.func, ast.Attribute) and n.func.attr == 'index'
+                                             and ast.unparse(n.func.value) == 'e8m0mxfp_allowed_values')
+             or (isinstance(n, ast.Compare) and isinstance(n.ops[0], (ast.Eq, ast.NotEq, ast.In, ast.NotIn))
+                 and any(isinstance(y, ast.Name) and y.id == 'f' for y in ast.walk(n))
+                 and any(isinstance(y, ast.BinOp) and isinstance(y.op, ast.Pow) or (isinstance(y, ast.Name) and y.id == 'e8m0mxfp_allowed_values')
+                         or (isinstance(y, ast.Call) and ast.unparse(y.func) == 'math.ldexp') for y in ast.walk(n)))]
+    if inexact and not exact:
+        r.fail(s.key, inexact[0], f'e8m0 accepts exact powers of two only, but the code is derived with {ast.unparse(inexact[0].func)}(), which rounds, and '
+               'there is no exact comparison of f with the power (or the table of allowed values): neighbours of 2**k are encoded instead of rejected',
+               loc=s.loc(inexact[0]))
+    else:
+        r.ok('e8m0 exact membership', {'instance': 'e8m0 encoder', 'exact_test': norm(exact[0]) if exact else 'no rounding function used'})
     # ---- mxint
     g = m.funcs.get('bits:Bits._getmxint')
     s = m.funcs.get('bitstore_helpers:mxint2bitstore')
